@@ -58,7 +58,7 @@ Definition buf_obs (b : buf) (B : Z) (e : obs) : obs :=
      o_kCheapPrepend := kCP;
      o_len := o_len e; o_initialSize := o_initialSize e; o_reserve := o_reserve e;
      o_start := o_start e; o_end := o_end e; o_size := o_size e; o_n := o_n e;
-     o_writable := o_writable e; o_readable := o_readable e; o_x := o_x e; o_result := o_result e |}.
+     o_writable := o_writable e; o_readable := o_readable e; o_iovcnt := o_iovcnt e; o_x := o_x e; o_result := o_result e |}.
 
 (* only the three private members (what the bodies of the size observers may read) *)
 Definition mem_obs (b : buf) (e : obs) : obs :=
@@ -244,4 +244,390 @@ Lemma gen_int_casts b B e :
   narrowing_casts = 1 /\ signed_widening_casts = 1 /\
   toStringPiece_narrow0 = int_bits /\ append1_widen_signed0 = int_bits /\
   int_cast (toStringPiece_narrow0_arg (buf_obs b B e)) = toStringPiece_len b.
+Proof. repeat split; reflexivity. Qed.
+
+(* ==== the statement TREES (review E-3) ==========================================================
+   Gen_C10.<f>_tree is the control structure of member function f with every generated fact at its
+   place.  [exec] interprets a tree on a MODEL buffer: conditions and expressions are evaluated on
+   [buf_obs b B L] (L = the record holding parameters and locals), SSet stores an index, SCall runs the
+   MODEL's function of that name, SIf picks a branch, SAssert stops with [Failed].  Data movement
+   (std::copy, memcpy: SOther) is not interpreted, so results are compared on the index skeleton
+   [sk] = (readerIndex_, writerIndex_, buffer_.size()): [agrees (exec f_tree ..) (model_f ..)].
+   Swapping the branches of an if, moving a statement into / out of a branch, dropping or duplicating
+   an index assignment or a call changes the tree, hence the interpreted result, and breaks a lemma. *)
+From Coq Require Import String.
+Import List.   (* List.length, not String.length *)
+Local Open Scope string_scope.
+
+Inductive outc : Type :=
+| Done (b : buf) (L : obs)
+| Ret (b : buf) (L : obs) (v : Z)
+| Failed                      (* an assert failed (in this function or in a callee) *)
+| Stuck (what : string).      (* the interpreter does not know this member / callee *)
+
+Definition hasWritten_idx (n : nat) (b : buf) : res buf :=
+  if (n <=? writableBytes b)%nat then Ok (mkBuf (store b) (ridx b) (widx b + n) (up b)) else Rejected.
+
+(* the model's function for a callee name; integer arguments only (data is not part of the skeleton) *)
+Definition call_sem (f : string) (args : list Z) (b : buf) : option (res buf) :=
+  match args with
+  | [] => if f =? "retrieveAll" then Some (Ok (retrieveAll b)) else None
+  | [a] =>
+      let n := Z.to_nat a in
+      if f =? "retrieve" then Some (retrieve n b)
+      else if f =? "makeSpace" then Some (makeSpace n b)
+      else if f =? "ensureWritableBytes" then Some (ensureWritable n b)
+      else if f =? "buffer.resize" then Some (Ok (mkBuf (vresize (store b) n) (ridx b) (widx b) (up b)))
+      else if f =? "hasWritten" then Some (hasWritten_idx n b)
+      else if f =? "append" then Some (C10_Model.append (repeat x00 n) b)
+      else None
+  | _ => None
+  end.
+
+Section Exec.
+Variable B : Z.
+
+Fixpoint exec_stmt (st : stmt) (b : buf) (L : obs) {struct st} : outc :=
+  let exec_list :=
+    fix exec_list (l : list stmt) (b : buf) (L : obs) {struct l} : outc :=
+      match l with
+      | [] => Done b L
+      | x :: t => match exec_stmt x b L with Done b' L' => exec_list t b' L' | o => o end
+      end in
+  let v := buf_obs b B L in
+  match st with
+  | SAssert c => if c v then Done b L else Failed
+  | SSet m e =>
+      if m =? "readerIndex" then Done (mkBuf (store b) (Z.to_nat (e v)) (widx b) (up b)) L
+      else if m =? "writerIndex" then Done (mkBuf (store b) (ridx b) (Z.to_nat (e v)) (up b)) L
+      else if m =? "iov_len" then Done b L            (* not buffer state *)
+      else Stuck m
+  | SLet _ set e => Done b (set (e v) L)
+  | SHavoc _ => Done b L                              (* its value is whatever L already holds *)
+  | SCall f args =>
+      match call_sem f (map (fun a => a v) args) b with
+      | Some (Ok b') => Done b' L
+      | Some _ => Failed
+      | None => Stuck f
+      end
+  | SIf c th el => if c v then exec_list th b L else exec_list el b L
+  | SRet e => Ret b L (e v)
+  | SOther _ => Done b L
+  end.
+
+Fixpoint exec (l : list stmt) (b : buf) (L : obs) {struct l} : outc :=
+  match l with
+  | [] => Done b L
+  | x :: t => match exec_stmt x b L with Done b' L' => exec t b' L' | o => o end
+  end.
+End Exec.
+
+Definition sk (b : buf) : nat * nat * nat := (ridx b, widx b, length (store b)).
+
+Definition agrees (o : outc) (r : res buf) : Prop :=
+  match o, r with
+  | Done b _, Ok b' => sk b = sk b'
+  | Ret b _ _, Ok b' => sk b = sk b'
+  | Failed, Rejected => True
+  | Failed, Fault => True
+  | _, _ => False
+  end.
+
+(* parameters / locals live in L; the link lemmas above are stated with the setters outside *)
+Lemma buf_obs_set_len b B v e : buf_obs b B (set_len v e) = set_len v (buf_obs b B e).
+Proof. reflexivity. Qed.
+Lemma buf_obs_set_n b B v e : buf_obs b B (set_n v e) = set_n v (buf_obs b B e).
+Proof. reflexivity. Qed.
+Lemma buf_obs_set_writable b B v e : buf_obs b B (set_writable v e) = set_writable v (buf_obs b B e).
+Proof. reflexivity. Qed.
+Lemma buf_obs_set_readable b B v e : buf_obs b B (set_readable v e) = set_readable v (buf_obs b B e).
+Proof. reflexivity. Qed.
+Lemma buf_obs_set_iovcnt b B v e : buf_obs b B (set_iovcnt v e) = set_iovcnt v (buf_obs b B e).
+Proof. reflexivity. Qed.
+
+Ltac run_tree := cbn [exec exec_stmt call_sem map String.eqb Ascii.eqb Bool.eqb]; cbv beta;
+  rewrite ?buf_obs_set_len, ?buf_obs_set_n, ?buf_obs_set_writable, ?buf_obs_set_readable, ?buf_obs_set_iovcnt.
+
+Local Close Scope string_scope.
+
+Lemma vresize_length s n : length (vresize s n) = n.
+Proof.
+  unfold vresize. rewrite app_length, firstn_length, repeat_length. lia.
+Qed.
+
+Lemma write_at_length s p d s' : write_at s p d = Some s' -> length s' = length s.
+Proof.
+  unfold write_at. destruct (Nat.leb_spec (p + length d) (length s)); [|discriminate].
+  intros E. injection E as <-. rewrite !app_length, firstn_length, skipn_length. lia.
+Qed.
+
+Lemma write_at_some s p d : (p + length d <= length s)%nat -> exists s', write_at s p d = Some s'.
+Proof. intros H. unfold write_at. destruct (Nat.leb_spec (p + length d) (length s)); [eauto|lia]. Qed.
+
+Lemma read_at_ok s p l : (p + l <= length s)%nat -> exists d, read_at s p l = Some d /\ length d = l.
+Proof.
+  intros H. unfold read_at. destruct (Nat.leb_spec (p + l) (length s)); [|lia].
+  eexists. split; [reflexivity|]. rewrite firstn_length, skipn_length. lia.
+Qed.
+
+Lemma hasWritten_idx_spec d b :
+  match hasWrittenBytes d b with
+  | Ok b1 => exists b2, hasWritten_idx (length d) b = Ok b2 /\ sk b1 = sk b2
+  | Rejected => hasWritten_idx (length d) b = Rejected
+  | Fault => True
+  end.
+Proof.
+  unfold hasWrittenBytes, hasWritten_idx. destruct (length d <=? writableBytes b)%nat; [|reflexivity].
+  destruct (write_at (store b) (widx b) d) as [s'|] eqn:W; cbn [mem bind]; [|exact I].
+  eexists. split; [reflexivity|]. unfold sk. cbn [ridx widx store]. now rewrite (write_at_length _ _ _ _ W).
+Qed.
+
+(* ---- retrieve: assert; if (len < readableBytes()) readerIndex_ += len; else retrieveAll(); ---------- *)
+Lemma tree_retrieve b n B e :
+  agrees (exec B retrieve_tree b (set_len (Zn n) e)) (retrieve n b).
+Proof.
+  unfold retrieve_tree. run_tree.
+  pose proof (gen_retrieve b n B e) as (A0 & I0 & S0 & _). cbn zeta in A0, I0, S0.
+  rewrite A0. unfold retrieve. destruct (n <=? readableBytes b)%nat; [|exact I].
+  run_tree. rewrite I0. destruct (n <? readableBytes b)%nat; run_tree.
+  - rewrite S0, Nat2Z.id. reflexivity.
+  - reflexivity.
+Qed.
+
+Lemma tree_retrieveAll b B e : exec B retrieveAll_tree b e = Done (mkBuf (store b) (ridx (retrieveAll b)) (widx (retrieveAll b)) (up b)) e.
+Proof.
+  unfold retrieveAll_tree. run_tree.
+  unfold retrieveAll_set0_readerIndex, retrieveAll_set1_writerIndex. gl. cbn [store ridx widx up retrieveAll].
+  rewrite <- kCP_nat, !Nat2Z.id. reflexivity.
+Qed.
+
+(* ---- hasWritten / unwrite / prepend: assert, then one index moves -------------------------------------- *)
+Lemma tree_hasWritten b n B e :
+  agrees (exec B hasWritten_tree b (set_len (Zn n) e)) (hasWritten_idx n b).
+Proof.
+  unfold hasWritten_tree. run_tree.
+  pose proof (gen_write_side b n B e) as (_ & _ & _ & A0 & S0 & _). cbn zeta in A0, S0.
+  rewrite A0. unfold hasWritten_idx. destruct (n <=? writableBytes b)%nat; [|exact I].
+  run_tree. rewrite S0, Nat2Z.id. reflexivity.
+Qed.
+
+Lemma tree_unwrite b n B e : (ridx b <= widx b)%nat ->
+  agrees (exec B unwrite_tree b (set_len (Zn n) e)) (unwrite n b).
+Proof.
+  intros H. unfold unwrite_tree. run_tree.
+  pose proof (gen_write_side b n B e) as (_ & _ & _ & _ & _ & A0 & S0 & _). cbn zeta in A0, S0.
+  rewrite A0. unfold unwrite. destruct (Nat.leb_spec n (readableBytes b)); [|exact I].
+  run_tree. rewrite S0 by (unfold readableBytes in *; lia). rewrite Nat2Z.id. reflexivity.
+Qed.
+
+Lemma tree_prepend b d B e : (ridx b <= widx b)%nat -> (widx b <= length (store b))%nat ->
+  agrees (exec B prepend_tree b (set_len (Zn (length d)) e)) (prepend d b).
+Proof.
+  intros H1 H2. unfold prepend_tree. run_tree.
+  pose proof (gen_write_side b (length d) B e) as (_ & _ & _ & _ & _ & _ & _ & A0 & S0 & _). cbn zeta in A0, S0.
+  rewrite A0. unfold prepend, prependableBytes in *. destruct (Nat.leb_spec (length d) (ridx b)); [|exact I].
+  run_tree. rewrite S0 by lia. rewrite Nat2Z.id.
+  destruct (write_at_some (store b) (ridx b - length d) d) as [s' E]; [lia|].
+  rewrite E. cbn [mem bind agrees]. unfold sk. cbn [ridx widx store]. now rewrite (write_at_length _ _ _ _ E).
+Qed.
+
+(* ---- ensureWritableBytes: if (writableBytes() < len) makeSpace(len); assert(writableBytes() >= len) ---- *)
+Lemma tree_ensureWritableBytes b n B e :
+  agrees (exec B ensureWritableBytes_tree b (set_len (Zn n) e)) (ensureWritable n b).
+Proof.
+  unfold ensureWritableBytes_tree. run_tree.
+  pose proof (gen_write_side b n B e) as (I0 & C0 & _). cbn zeta in I0, C0.
+  rewrite I0. unfold ensureWritable. destruct (writableBytes b <? n)%nat.
+  - run_tree. rewrite C0, Nat2Z.id. destruct (makeSpace n b) as [b1| |]; cbn [bind]; try exact I.
+    run_tree. pose proof (gen_write_side b1 n B e) as (_ & _ & A0 & _). cbn zeta in A0. rewrite A0.
+    destruct (n <=? writableBytes b1)%nat; [reflexivity|exact I].
+  - run_tree. cbn [bind]. pose proof (gen_write_side b n B e) as (_ & _ & A0 & _). cbn zeta in A0. rewrite A0.
+    destruct (n <=? writableBytes b)%nat; [reflexivity|exact I].
+Qed.
+
+(* ---- makeSpace: if (writable + prependable < len + kCheapPrepend) buffer_.resize(writerIndex_+len);
+                   else { assert; readable = readableBytes(); copy; readerIndex_ = ..; writerIndex_ = ..; assert } *)
+Lemma tree_makeSpace b len B e : (ridx b <= widx b)%nat -> (widx b <= length (store b))%nat ->
+  agrees (exec B makeSpace_tree b (set_len (Zn len) e)) (makeSpace len b).
+Proof.
+  intros H1 H2. unfold makeSpace_tree. run_tree.
+  pose proof (gen_makeSpace b len B e H1) as (I0 & C0 & A0 & _). cbn zeta in I0, C0, A0.
+  rewrite I0. unfold makeSpace. destruct (writableBytes b + prependableBytes b <? len + kCheapPrepend)%nat.
+  - run_tree. rewrite C0, Nat2Z.id. reflexivity.
+  - run_tree. rewrite A0. destruct (Nat.ltb_spec kCheapPrepend (ridx b)) as [HK|]; [|exact I].
+    run_tree.
+    destruct (read_at_ok (store b) (ridx b) (readableBytes b)) as (d & -> & Ld); [unfold readableBytes; lia|].
+    cbn [mem bind].
+    destruct (write_at_some (store b) kCheapPrepend d) as [s' E]; [unfold readableBytes in *; lia|].
+    rewrite E. cbn [mem bind].
+    unfold makeSpace_let_readable, makeSpace_set0_readerIndex, makeSpace_set1_writerIndex, makeSpace_assert1. gl.
+    cbn [store ridx widx up]. unfold readableBytes. cbn [ridx widx]. rewrite <- kCP_nat.
+    rewrite !Nat2Z.id.
+    replace (Z.to_nat (Zn kCheapPrepend + Zn (widx b - ridx b))) with (kCheapPrepend + (widx b - ridx b))%nat by lia.
+    destruct (Z.eqb_spec (Zn (widx b - ridx b)) (Zn (kCheapPrepend + (widx b - ridx b) - kCheapPrepend))) as [_|NE]; [|lia].
+    cbn [agrees]. unfold sk. cbn [ridx widx store]. now rewrite (write_at_length _ _ _ _ E).
+Qed.
+
+From Muduo Require C10_Proofs.
+(* ---- index skeletons of the model's makeSpace / ensureWritable / append (what SCall needs of a callee) --- *)
+Definition makeSpace_sk (len : nat) (s : nat * nat * nat) : nat * nat * nat :=
+  let '(r, w, z) := s in
+  if (z - w + r <? len + kCheapPrepend)%nat then (r, w, w + len)%nat else (kCheapPrepend, kCheapPrepend + (w - r), z)%nat.
+Definition ensure_sk (n : nat) (s : nat * nat * nat) : nat * nat * nat :=
+  let '(r, w, z) := s in if (z - w <? n)%nat then makeSpace_sk n s else s.
+Definition append_sk (n : nat) (s : nat * nat * nat) : nat * nat * nat :=
+  let '(r, w, z) := ensure_sk n s in (r, w + n, z)%nat.
+
+Lemma makeSpace_skel len b b' : makeSpace len b = Ok b' -> sk b' = makeSpace_sk len (sk b).
+Proof.
+  unfold makeSpace, makeSpace_sk, sk, writableBytes, prependableBytes, readableBytes.
+  destruct (length (store b) - widx b + ridx b <? len + kCheapPrepend)%nat.
+  - intros E. injection E as <-. cbn [ridx widx store]. now rewrite vresize_length.
+  - destruct (kCheapPrepend <? ridx b)%nat; [|discriminate].
+    destruct (read_at (store b) (ridx b) (widx b - ridx b)) as [d|]; cbn [mem bind]; [|discriminate].
+    destruct (write_at (store b) kCheapPrepend d) as [s'|] eqn:W; cbn [mem bind]; [|discriminate].
+    intros E. injection E as <-. cbn [ridx widx store]. now rewrite (write_at_length _ _ _ _ W).
+Qed.
+
+Lemma ensureWritable_skel n b b' : ensureWritable n b = Ok b' -> sk b' = ensure_sk n (sk b).
+Proof.
+  unfold ensureWritable, ensure_sk. unfold sk at 2. unfold writableBytes at 1.
+  destruct (length (store b) - widx b <? n)%nat.
+  - destruct (makeSpace n b) as [b1| |] eqn:M; cbn [bind]; try discriminate.
+    destruct (n <=? writableBytes b1)%nat; [|discriminate]. intros E. injection E as <-.
+    apply makeSpace_skel. exact M.
+  - cbn [bind]. destruct (n <=? writableBytes b)%nat; [|discriminate]. intros E. injection E as <-. reflexivity.
+Qed.
+
+Lemma append_skel d b b' : C10_Model.append d b = Ok b' -> sk b' = append_sk (length d) (sk b).
+Proof.
+  unfold C10_Model.append, append_sk.
+  destruct (ensureWritable (length d) b) as [b1| |] eqn:EW; cbn [bind]; try discriminate.
+  rewrite <- (ensureWritable_skel _ _ _ EW).
+  destruct (write_at (store b1) (widx b1) d) as [s'|] eqn:W; cbn [mem bind]; [|discriminate].
+  destruct (length d <=? writableBytes b1)%nat; [|discriminate].
+  intros E. injection E as <-. unfold sk. cbn [ridx widx store]. now rewrite (write_at_length _ _ _ _ W).
+Qed.
+
+(* ---- append(const char*, size_t): ensureWritableBytes(len); copy; hasWritten(len) ---------------------- *)
+Lemma tree_append b l d B e : C10_Proofs.Inv b l ->
+  agrees (exec B append2_char_tree b (set_len (Zn (length d)) e)) (C10_Model.append d b).
+Proof.
+  intros HI. unfold append2_char_tree. run_tree.
+  unfold append2_char_call0_ensureWritableBytes, append2_char_call1_hasWritten. gl. rewrite !Nat2Z.id.
+  destruct (C10_Proofs.append_ok d b l HI) as (b' & E & _). rewrite E.
+  pose proof (append_skel _ _ _ E) as SK.
+  unfold C10_Model.append in E.
+  destruct (ensureWritable (length d) b) as [b1| |] eqn:EW; cbn [bind] in E; try discriminate.
+  run_tree. gl. rewrite Nat2Z.id.
+  destruct (write_at (store b1) (widx b1) d) as [s'|] eqn:W; cbn [mem bind] in E; [|discriminate].
+  unfold hasWritten_idx. destruct (length d <=? writableBytes b1)%nat; [|discriminate].
+  cbn [agrees]. rewrite SK. unfold append_sk. rewrite <- (ensureWritable_skel _ _ _ EW). reflexivity.
+Qed.
+
+(* ---- retrieveUntil(end) / retrieveAsString(len): asserts, then retrieve(..) --------------------------- *)
+Lemma tree_retrieveUntil b off B e : (ridx b <= widx b)%nat ->
+  agrees (exec B retrieveUntil_tree b (set_end (B + Zn (ridx b) + off) e)) (retrieveUntil off b).
+Proof.
+  intros H. unfold retrieveUntil_tree. run_tree.
+  pose proof (gen_pointer_asserts b B off e H) as (_ & _ & A & C). cbn zeta in A, C.
+  change (buf_obs b B (set_end (B + Zn (ridx b) + off) e)) with (set_end (B + Zn (ridx b) + off) (buf_obs b B e)).
+  unfold retrieveUntil. rewrite <- A.
+  destruct (retrieveUntil_assert0 (set_end (B + Zn (ridx b) + off) (buf_obs b B e))); cbn [andb]; [|exact I].
+  run_tree. change (buf_obs b B (set_end (B + Zn (ridx b) + off) e)) with (set_end (B + Zn (ridx b) + off) (buf_obs b B e)).
+  destruct (retrieveUntil_assert1 (set_end (B + Zn (ridx b) + off) (buf_obs b B e))); [|exact I].
+  run_tree. change (buf_obs b B (set_end (B + Zn (ridx b) + off) e)) with (set_end (B + Zn (ridx b) + off) (buf_obs b B e)).
+  rewrite C. destruct (retrieve (Z.to_nat off) b); cbn [agrees]; auto.
+Qed.
+
+(* ---- readFd: n < 0: nothing; n <= writable: writerIndex_ += n; else writerIndex_ = size, append(extrabuf, n - writable)
+   [n] = the result of readv, supplied through L (SHavoc) *)
+Definition agrees_rd (o : outc) (r : res (buf * rfd)) : Prop :=
+  match o, r with
+  | Ret b _ v, Ok (b', rd) => sk b = sk b' /\ v = rf_n rd
+  | Failed, Rejected => True
+  | Failed, Fault => True
+  | _, _ => False
+  end.
+
+Lemma tree_readFd b l k B e : C10_Proofs.Inv b l ->
+  let nZ := match k with KData avail => Zn (length (firstn (readFd_capacity b) avail)) | KErr _ => (-1)%Z end in
+  agrees_rd (exec B readFd_tree b (set_n nZ e)) (readFd k b).
+Proof.
+  intros HI nZ. pose proof (C10_Proofs.inv_sizes b l HI) as (S1 & S2 & S3 & S4).
+  unfold readFd_tree. run_tree.
+  unfold readFd_let_writable, readFd_set0_iov_len, readFd_set1_iov_len, readFd_let_iovcnt, readFd_if0, readFd_if1,
+    readFd_set2_writerIndex, readFd_set3_writerIndex, readFd_call0_append, readFd_ret. gl.
+  destruct k as [avail|err]; subst nZ; unfold readFd.
+  - set (data := firstn (readFd_capacity b) avail).
+    destruct (Z.ltb_spec (Zn (length data)) 0) as [|_]; [lia|].
+    run_tree. gl.
+    assert (CAP : (length data <= readFd_capacity b)%nat) by (unfold data; rewrite firstn_length; lia).
+    destruct (Z.leb_spec (Zn (length data)) (Zn (writableBytes b))) as [LE|GT].
+    + destruct (Nat.leb_spec (length data) (writableBytes b)); [|lia].
+      run_tree. gl.
+      destruct (write_at_some (store b) (widx b) data) as [s' W]; [unfold writableBytes in *; lia|].
+      rewrite W. cbn [mem bind agrees_rd rf_n]. split; [|reflexivity].
+      unfold sk. cbn [ridx widx store]. rewrite (write_at_length _ _ _ _ W). f_equal. f_equal. lia.
+    + destruct (Nat.leb_spec (length data) (writableBytes b)); [lia|].
+      run_tree. gl.
+      destruct (write_at_some (store b) (widx b) (firstn (writableBytes b) data)) as [s' W].
+      { rewrite firstn_length. unfold writableBytes in *. lia. }
+      rewrite W. cbn [mem bind].
+      assert (CNT : readFd_capacity b = (writableBytes b + kExtraBuf)%nat /\ readFd_iovcnt b = 2%nat).
+      { unfold readFd_capacity, readFd_iovcnt in *. destruct (writableBytes b <? kExtraBuf)%nat; [split; reflexivity|lia]. }
+      destruct CNT as [CAPE CNT]. rewrite CNT.
+      assert (LS : length (skipn (writableBytes b) data) = (length data - writableBytes b)%nat) by apply skipn_length.
+      destruct (Nat.leb_spec (length (skipn (writableBytes b) data)) kExtraBuf); [|lia]. cbn [andb Nat.eqb].
+      rewrite Nat2Z.id.
+      replace (Z.to_nat (Zn (length data) - Zn (writableBytes b))) with (length data - writableBytes b)%nat by lia.
+      set (b1 := mkBuf (store b) (ridx b) (length (store b)) (up b)).
+      set (b2 := mkBuf s' (ridx b) (length s') (up b)).
+      assert (I1 : exists l1, C10_Proofs.Inv b1 l1).
+      { destruct HI as (pre & post & Hs & Hp & Hw & Hc & Hl). exists (l ++ post), pre, [].
+        unfold b1. cbn [store ridx widx up]. rewrite app_nil_r. repeat split; auto.
+        rewrite Hs, !app_length. lia. }
+      assert (I2 : exists l2, C10_Proofs.Inv b2 l2).
+      { pose proof (write_at_length _ _ _ _ W) as LW.
+        destruct HI as (pre & post & Hs & Hp & Hw & Hc & Hl).
+        exists (skipn (ridx b) s'), (firstn (ridx b) s'), [].
+        unfold b2. cbn [store ridx widx up]. rewrite app_nil_r, firstn_skipn. repeat split; auto.
+        - rewrite firstn_length. lia.
+        - rewrite skipn_length. lia.
+        - lia. }
+      destruct I1 as [l1 I1]. destruct I2 as [l2 I2].
+      destruct (C10_Proofs.append_ok (repeat x00 (length data - writableBytes b)) b1 l1 I1) as (r1 & E1 & _).
+      destruct (C10_Proofs.append_ok (skipn (writableBytes b) data) b2 l2 I2) as (r2 & E2 & _).
+      rewrite E1, E2. cbn [bind agrees_rd rf_n]. split; [|reflexivity].
+      rewrite (append_skel _ _ _ E1), (append_skel _ _ _ E2), repeat_length, LS.
+      unfold b1, b2, sk. cbn [ridx widx store]. now rewrite (write_at_length _ _ _ _ W).
+  - destruct (Z.ltb_spec (-1) 0) as [_|]; [|lia]. run_tree. gl. cbn [agrees_rd rf_n]. split; reflexivity.
+Qed.
+
+(* ---- shape of the bodies that move data (the SOther entries are not interpreted: their presence and place
+   are compared syntactically) ------------------------------------------------------------------------------ *)
+Fixpoint shape1 (st : stmt) : list string :=
+  let shapes := fix shapes (l : list stmt) : list string :=
+    match l with [] => [] | x :: t => (shape1 x ++ shapes t)%list end in
+  match st with
+  | SOther w => [("other:" ++ w)%string]
+  | SCall f _ => [("call:" ++ f)%string]
+  | SSet m _ => [("set:" ++ m)%string]
+  | SAssert _ => ["assert"%string]
+  | SLet x _ _ => [("let:" ++ x)%string]
+  | SHavoc x => [("havoc:" ++ x)%string]
+  | SRet _ => ["ret"%string]
+  | SIf _ th el => ("if{"%string :: shapes th ++ "}else{"%string :: shapes el ++ ["}"%string])%list
+  end.
+Fixpoint shape (l : list stmt) : list string :=
+  match l with [] => [] | x :: t => (shape1 x ++ shape t)%list end.
+
+Lemma tree_shapes :
+  shape makeSpace_tree = ["if{"; "call:buffer.resize"; "}else{"; "assert"; "let:readable"; "other:copy"; "set:readerIndex";
+                          "set:writerIndex"; "assert"; "}"]%string /\
+  shape prepend_tree = ["assert"; "set:readerIndex"; "havoc:d"; "other:copy"]%string /\
+  shape append2_char_tree = ["call:ensureWritableBytes"; "other:copy"; "call:hasWritten"]%string /\
+  shape shrink_tree = ["havoc:other"; "call:other.ensureWritableBytes"; "call:toStringPiece"; "call:other.append"; "call:swap"]%string /\
+  shape swap_tree = ["call:buffer.swap"; "other:swap"; "other:swap"]%string /\
+  shape retrieveAsString_tree = ["assert"; "havoc:result"; "call:retrieve"; "other:return"]%string.
 Proof. repeat split; reflexivity. Qed.
